@@ -242,7 +242,7 @@ func wordNums(alphabet []uint32, word []int) []uint32 {
 func TestC03(t *testing.T) {
 	env := kit.GetEnv()
 	rep := kit.NewReport("C03", env)
-	rep.Rule = "all delivery histories (words incl. repeats = duplication, omissions = loss, any order) of length D over 6-number alphabets of sender sequence numbers, per layer (bare handler, end-to-end encrypted regular, end-to-end encrypted priority, link frame; signed: timestamps 1 ms to 3 h apart); signed frames across the life of the receiving session: all words of length L over {deliver t0/t1/t2, encryption session cleared (the reaction to a no-keys error), fresh end-to-end key setup, 61 s idle + session cleaner, 61 min idle + session cleaner}; encrypted frames of both classes across {start of a new key exchange on the live session, session cleaner, encryption session cleared}; every prefix is checked step by step against the reference set model; non-trivial = history contains at least one duplicate or out-of-window delivery; states = distinct reference-model states (accepted set, max) reached"
+	rep.Rule = "all delivery histories (words incl. repeats = duplication, omissions = loss, any order) of length D over 6-number alphabets of sender sequence numbers, per layer (bare handler, end-to-end encrypted regular, end-to-end encrypted priority, link frame; signed: timestamps 1 ms to 3 h apart); signed frames across the life of the receiving session: all words of length L over {deliver t0/t1/t2, encryption session cleared (the reaction to a no-keys error), fresh end-to-end key setup, sender marked offline (the reaction to its going-down notice), 61 s idle + session cleaner, 61 min idle + session cleaner}; encrypted frames of both classes across {start of a new key exchange on the live session, session cleaner, encryption session cleared}; every prefix is checked step by step against the reference set model; non-trivial = history contains at least one duplicate or out-of-window delivery; states = distinct reference-model states (accepted set, max) reached"
 	rep.Assumptions = []string{
 		"sequence numbers outside the enumerated alphabets behave like those inside (alphabets: contiguous low, straddling the 64 window edge, high near 2^32 but below the key-rollover zone which C15 covers)",
 		"AEAD/Ed25519 primitives are correct",
